@@ -70,7 +70,7 @@ impl Obj {
                             let rebuilt = <$T>::new_from_internals_near_raw(k, &a, &b);
                             rebuilt == *o && rebuilt.cmp(o) == std::cmp::Ordering::Equal
                         }));
-                        let txt = catch_unwind(AssertUnwindSafe(|| o.to_raw_form_string())).unwrap_or_default();
+                        let txt = catch_unwind(AssertUnwindSafe(|| o.to_raw_form().to_string())).unwrap_or_default();
                         format!(
                             "{{\"k\":{},\"a\":{},\"b\":{},\"valid\":{},\"fulleq\":{},\"dbg\":{},\"txt\":{},\"isn\":{}}}",
                             k, jarr_u8(&a), jarr_u8(&b), valid.unwrap_or(false) && r.is_valid(), fulleq.unwrap_or(false), dbg, jarr_u8(txt.as_bytes()),
@@ -366,6 +366,47 @@ pub fn value_for(rng: &mut Rng, t: &str) -> H {
     H { k: rng.below(31) as u8, a, b }
 }
 
+pub fn random_history(sh: &mut Shards, rng: &mut Rng, len: usize) -> u64 {
+    let mut st = Store::new();
+    sh.emit("{\"ev\":\"hnew\"}");
+    let mut steps = 0;
+    for _ in 0..len {
+        match rng.below(10) {
+            0 | 1 => {
+                let d = rng.range(0, st.slots.len() - 1);
+                let t = st.slots[d].tname();
+                let v = value_for(rng, t);
+                do_set(sh, &mut st, d, &v);
+            }
+            2 => {
+                let d = rng.range(0, st.slots.len() - 1);
+                let t = st.slots[d].tname();
+                let v = value_for(rng, t);
+                // the text of a raw value (may contain runs): parsed by whatever type the slot has
+                let raw = LongRawFuzzyHash::new_from_internals_near_raw(v.k, &v.a, &v.b);
+                let mut text = raw.to_string().into_bytes();
+                if rng.chance(1, 3) {
+                    text.extend_from_slice(b",\"name\"");
+                }
+                do_parse(sh, &mut st, d, &text);
+            }
+            3 => {
+                let d = *rng.pick(&[st.of_type("RS")[0], st.of_type("RL")[1]]);
+                let n = rng.range(0, 4000);
+                let data: Vec<u8> = (0..n).map(|_| rng.next() as u8).collect();
+                do_gen(sh, &mut st, d, &data);
+            }
+            _ => {
+                let &(op, stn, dtn) = rng.pick(OPS);
+                let s = *rng.pick(&st.of_type(stn));
+                let d = *rng.pick(&st.of_type(dtn));
+                do_op(sh, &mut st, op, s, d);
+            }
+        }
+        steps += 1;
+    }
+    steps
+}
 pub fn drive_hist(a: &Args, thorough: bool) {
     let mut sh = Shards::new(&a.out, "obj_hist", a.shards);
     let mut rng = Rng::new(a.seed ^ 0xdddd);
@@ -412,48 +453,8 @@ pub fn drive_hist(a: &Args, thorough: bool) {
     // (2) random histories
     for _ in 0..(if thorough { 6000 } else { 250 }) {
         sh.next_unit();
-        let mut st = Store::new();
-        sh.emit("{\"ev\":\"hnew\"}");
         let len = rng.range(50, 200);
-        for _ in 0..len {
-            match rng.below(10) {
-                0 | 1 => {
-                    let d = rng.range(0, st.slots.len() - 1);
-                    let t = st.slots[d].tname();
-                    let v = value_for(&mut rng, t);
-                    do_set(&mut sh, &mut st, d, &v);
-                }
-                2 => {
-                    let d = rng.range(0, st.slots.len() - 1);
-                    let t = st.slots[d].tname();
-                    let v = value_for(&mut rng, t);
-                    // the text of a raw value (may contain runs): parsed by whatever type the slot has
-                    let raw = LongRawFuzzyHash::new_from_internals_near_raw(v.k, &v.a, &v.b);
-                    let mut text = raw.to_string().into_bytes();
-                    if rng.chance(1, 3) {
-                        text.extend_from_slice(b",\"name\"");
-                    }
-                    do_parse(&mut sh, &mut st, d, &text);
-                }
-                3 => {
-                    let d = *rng.pick(&[st.of_type("RS")[0], st.of_type("RL")[1]]);
-                    let n = rng.range(0, 4000);
-                    let data: Vec<u8> = (0..n).map(|_| rng.next() as u8).collect();
-                    do_gen(&mut sh, &mut st, d, &data);
-                }
-                _ => {
-                    let &(op, stn, dtn) = rng.pick(OPS);
-                    let s = *rng.pick(&st.of_type(stn));
-                    let d = *rng.pick(&st.of_type(dtn));
-                    if op == "normalize_in_place" {
-                        do_op(&mut sh, &mut st, op, d, d);
-                    } else {
-                        do_op(&mut sh, &mut st, op, s, d);
-                    }
-                }
-            }
-            steps += 1;
-        }
+        steps += random_history(&mut sh, &mut rng, len);
     }
     println!("STATS {{\"hist\":{{\"steps\":{}}}}}", steps);
     sh.finish();
@@ -514,14 +515,50 @@ pub fn ev_ctor(sh: &mut Shards, t: &str, f: &str, bs: u32, log: u8, a: &[u8], b:
             }))
         })),
     };
+    #[cfg(feature = "unchecked")]
+    let uobs: String = match &r {
+        Ok(Some(_)) => {
+            // the checked constructor accepted the arguments: the documented contract holds
+            let u = catch_unwind(AssertUnwindSafe(|| -> Option<Obj> {
+                unsafe {
+                    Some(match (t, f) {
+                        ("RS", "new_from_internals") => Obj::RS(RawFuzzyHash::new_from_internals_unchecked(bs, a, b)),
+                        ("RL", "new_from_internals") => Obj::RL(LongRawFuzzyHash::new_from_internals_unchecked(bs, a, b)),
+                        ("NS", "new_from_internals") => Obj::NS(FuzzyHash::new_from_internals_unchecked(bs, a, b)),
+                        ("NL", "new_from_internals") => Obj::NL(LongFuzzyHash::new_from_internals_unchecked(bs, a, b)),
+                        ("DS", "new_from_internals") => Obj::DS(DualFuzzyHash::new_from_internals_unchecked(bs, a, b)),
+                        ("DL", "new_from_internals") => Obj::DL(LongDualFuzzyHash::new_from_internals_unchecked(bs, a, b)),
+                        ("RS", "new_from_internals_near_raw") => Obj::RS(RawFuzzyHash::new_from_internals_near_raw_unchecked(log, a, b)),
+                        ("RL", "new_from_internals_near_raw") => Obj::RL(LongRawFuzzyHash::new_from_internals_near_raw_unchecked(log, a, b)),
+                        ("NS", "new_from_internals_near_raw") => Obj::NS(FuzzyHash::new_from_internals_near_raw_unchecked(log, a, b)),
+                        ("NL", "new_from_internals_near_raw") => Obj::NL(LongFuzzyHash::new_from_internals_near_raw_unchecked(log, a, b)),
+                        ("DS", "new_from_internals_near_raw") => Obj::DS(DualFuzzyHash::new_from_internals_near_raw_unchecked(log, a, b)),
+                        ("DL", "new_from_internals_near_raw") => Obj::DL(LongDualFuzzyHash::new_from_internals_near_raw_unchecked(log, a, b)),
+                        _ => return None,
+                    })
+                }
+            }));
+            match u {
+                Ok(Some(o)) => {
+                    let s = o.observe();
+                    format!("{},\"present\":true}}", &s[..s.len() - 1])
+                }
+                Ok(None) => "{\"present\":false}".to_string(),
+                Err(_) => "{\"present\":true,\"k\":0,\"a\":[],\"b\":[],\"valid\":false,\"fulleq\":false,\"dbg\":false,\"txt\":[],\"isn\":false}".to_string(),
+            }
+        }
+        _ => "{\"present\":false}".to_string(),
+    };
+    #[cfg(not(feature = "unchecked"))]
+    let uobs: String = "{\"present\":false}".to_string();
     let (res, obs) = match r {
         Ok(Some(o)) => ("ok", o.observe()),
         Ok(None) => return,
         Err(_) => ("panic", "{\"k\":0,\"a\":[],\"b\":[],\"valid\":false,\"fulleq\":false,\"dbg\":true,\"txt\":[],\"isn\":false}".to_string()),
     };
     sh.emit(&format!(
-        "{{\"ev\":\"ctor\",\"T\":\"{}\",\"fn\":\"{}\",\"bs\":{},\"log\":{},\"a\":{},\"b\":{},\"l1\":{},\"l2\":{},\"res\":\"{}\",\"obs\":{}}}",
-        t, f, jw32(bs), log, jarr_u8(a), jarr_u8(b), l1, l2, res, obs
+        "{{\"ev\":\"ctor\",\"T\":\"{}\",\"fn\":\"{}\",\"bs\":{},\"log\":{},\"a\":{},\"b\":{},\"l1\":{},\"l2\":{},\"res\":\"{}\",\"obs\":{},\"uobs\":{}}}",
+        t, f, jw32(bs), log, jarr_u8(a), jarr_u8(b), l1, l2, res, obs, uobs
     ));
 }
 impl From<RawFuzzyHash> for Obj {
@@ -544,21 +581,13 @@ impl From<LongFuzzyHash> for Obj {
         Obj::NL(o)
     }
 }
-pub fn drive_ctor(a: &Args, thorough: bool) {
-    let mut sh = Shards::new(&a.out, "obj_ctor", a.shards);
-    let mut rng = Rng::new(a.seed ^ 0xeeee);
-    let mut n = 0u64;
-    let mut violating = 0u64;
+pub fn random_ctor(sh: &mut Shards, rng: &mut Rng) -> bool {
     let fns_plain = ["new_from_internals", "new_from_internals_near_raw", "new_from_internals_raw", "init_from_internals_raw"];
     let fns_dual = ["new_from_internals", "new_from_internals_near_raw"];
-    for _ in 0..(if thorough { 60000 } else { 6000 }) {
-        if n % 50 == 0 {
-            sh.next_unit();
-        }
         let t = *rng.pick(&TYPES);
         let f = if t.starts_with('D') { *rng.pick(&fns_dual) } else { *rng.pick(&fns_plain) };
         let cap2 = if t.ends_with('L') { 64usize } else { 32 };
-        let base = value_for(&mut rng, t);
+        let base = value_for(rng, t);
         let (mut bs, mut log, mut aa, mut bb) = (3u32 << base.k, base.k, base.a.clone(), base.b.clone());
         let (mut l1, mut l2) = (aa.len() as u8, bb.len() as u8);
         // violate exactly one clause (or none)
@@ -631,11 +660,23 @@ pub fn drive_ctor(a: &Args, thorough: bool) {
             }
             _ => {}
         }
-        if clause <= 9 {
+        ev_ctor(sh, t, f, bs, log, &aa, &bb, l1, l2);
+        clause <= 9
+}
+pub fn drive_ctor(a: &Args, thorough: bool) {
+    let mut sh = Shards::new(&a.out, "obj_ctor", a.shards);
+    let mut rng = Rng::new(a.seed ^ 0xeeee);
+    let mut n = 0u64;
+    let mut violating = 0u64;
+    for _ in 0..(if thorough { 60000 } else { 6000 }) {
+        if n % 50 == 0 {
+            sh.next_unit();
+        }
+        if random_ctor(&mut sh, &mut rng) {
             violating += 1;
         }
-        ev_ctor(&mut sh, t, f, bs, log, &aa, &bb, l1, l2);
         n += 1;
+
     }
     println!("STATS {{\"ctor\":{{\"calls\":{},\"aimed_at_a_contract_clause\":{}}}}}", n, violating);
     sh.finish();
